@@ -115,4 +115,38 @@ def matchAgainst (o : Order) (q : Nat) : MatchOut :=
     if o.vis ≤ q then ⟨o.vis, none, 0, q - o.vis⟩
     else ⟨q, some { o with vis := o.vis - q }, 0, 0⟩
 
+/-- `OrderType::refresh_iceberg` (order_type.rs:342-407): the displayed quantity of an Iceberg /
+    Reserve order is *replaced* by `n` and up to `n` units are taken out of the hidden quantity
+    (`saturating_sub`); returns the new order and the hidden quantity used. Identity with 0 used
+    for the five plain variants. -/
+def Order.refresh (o : Order) (n : Nat) : Order × Nat :=
+  match o.kind with
+  | .iceberg h => ({ o with vis := n, kind := .iceberg (h - n) }, h - (h - n))
+  | .reserve h thr amt auto => ({ o with vis := n, kind := .reserve (h - n) thr amt auto }, h - (h - n))
+  | _ => (o, 0)
+
+/-- `TimeInForce::is_immediate` -/
+def Tif.isImmediate : Tif → Bool
+  | .ioc | .fok => true
+  | _ => false
+
+/-- `TimeInForce::has_expiry` -/
+def Tif.hasExpiry : Tif → Bool
+  | .gtd _ | .day => true
+  | _ => false
+
+/-- `TimeInForce::is_expired(now, market_close)` -/
+def Tif.isExpired : Tif → Nat → Option Nat → Bool
+  | .gtd e, now, _ => decide (e ≤ now)
+  | .day, now, some close => decide (close ≤ now)
+  | _, _, _ => false
+
+/-- `OrderType::is_immediate` / `is_fill_or_kill` / `is_post_only` -/
+def Order.isImmediate (o : Order) : Bool := o.tif.isImmediate
+def Order.isFok (o : Order) : Bool := o.tif == .fok
+def Order.isPostOnly (o : Order) : Bool :=
+  match o.kind with
+  | .postOnly => true
+  | _ => false
+
 end PLV
